@@ -384,7 +384,7 @@ class Session:
             ob = self.observe()
         if self.agrees(ob, st) and not st["prompt"]:
             # the shell must still be waiting a little later (an early prompt is the thing to catch)
-            t2 = time.time() + 0.06
+            t2 = time.time() + 0.12
             while time.time() < t2:
                 self.sh.pump(0.02)
             ob = self.observe()
@@ -857,6 +857,66 @@ class Session:
             ok = self.simple("jobs", "J") and ok
             ok = self.sig(c, 9) and ok
             ok = self.simple("", "E") and ok
+        elif name in ("cont_unsettles_last", "cont_unsettles_first"):
+            # a member of a foreground pipeline is stopped and continued from outside, then the OTHER member exits: the
+            # shell must keep waiting (the continued member runs), the job keeps the terminal (1687e77: a continue unsettles)
+            ok = self.launch([("jc", 0), ("jc", 0)], False)
+            a, b = self.nextpid - 2, self.nextpid - 1
+            x, y = (b, a) if name == "cont_unsettles_last" else (a, b)
+            ok = self.sig(x, 19) and ok
+            ok = self.sig(x, 18) and ok
+            ok = self.ask_exit(y, 0) and ok        # still waiting: x runs and owns the terminal
+            if not self.st["prompt"]:
+                ok = self.key("Z") and ok          # stops x: now the wait returns, Stopped notice, prompt
+            ok = self.simple("jobs", "J") and ok
+            ok = self.sig(x, 9) and ok
+            ok = self.simple("", "E") and ok
+        elif name == "stopped_member_killed":
+            # one member of a background pipeline is stopped, the shell takes note, that member is killed: the job has
+            # a running member and must stay Running
+            ok = self.launch([("jc", 0), ("jc", 0)], True)
+            a, b = self.nextpid - 2, self.nextpid - 1
+            ok = self.sig(a, 19) and ok
+            ok = self.simple("", "E") and ok
+            ok = self.sig(a, 9) and ok
+            ok = self.simple("", "E") and ok
+            ok = self.simple("jobs", "J") and ok
+            ok = self.sig(b, 9) and ok
+            ok = self.simple("", "E") and ok
+        elif name in ("bg_partial_stop", "bg_unnoticed_stop"):
+            # bg on a job the table lists as Running while a member is in fact stopped: bg must still continue it
+            if name == "bg_partial_stop":
+                ok = self.launch([("jc", 0), ("jc", 0)], True)
+                a = self.nextpid - 2
+                ok = self.sig(a, 19) and ok
+                ok = self.simple("", "E") and ok
+            else:
+                ok = self.launch([("jc", 0)], True)
+                a = self.nextpid - 1
+                ok = self.sig(a, 19) and ok        # `bg 1` is the very next line: the shell has not seen the stop
+            self.resumed = self.leader[a]
+            ok = self.simple("bg 1", "G:1:0") and ok
+            ok = self.simple("jobs", "J") and ok
+            for mp in self.live(self.st):
+                ok = self.sig(mp, 9) and ok
+            ok = self.simple("", "E") and ok
+        elif name == "fg_leader_gone":
+            # the first stage of a background pipeline has ended and the shell has taken note: fg must still bring the
+            # pipeline's group (not the pid of the next stage) to the foreground
+            ok = self.launch([("jc", 0), ("jc", 0)], True)
+            a, b = self.nextpid - 2, self.nextpid - 1
+            ok = self.ask_exit(a, 0) and ok
+            ok = self.simple("", "E") and ok
+            ok = self.fg(1, 0) and ok
+            if not self.st["prompt"]:
+                ok = self.key("Z") and ok
+            ok = self.simple("jobs", "J") and ok
+            ok = self.fg(1, 0) and ok
+            if not self.st["prompt"]:
+                ok = self.key("C") and ok
+            for mp in self.live(self.st):
+                ok = self.sig(mp, 9) and ok
+            ok = self.simple("jobs", "J") and ok
         elif name == "fg_multi":
             # no known class: a stopped two-process background job is brought to the foreground and ends member by member
             ok = self.launch([("jc", 0), ("jc", 0)], True)
@@ -1079,7 +1139,8 @@ def run(ctx, res):
     for r in range(reps):
         for name in ["count_waited", "stop_cont_parked", "exit_among_stopped", "partial_continue", "fg_multi", "ctrlz_bg_fg",
                      "many_pipes", "many_pipes",
-                     "fg_gone", "bg_gone", "fg_live_tail"]:
+                     "fg_gone", "bg_gone", "fg_live_tail", "cont_unsettles_last", "cont_unsettles_first",
+                     "stopped_member_killed", "bg_partial_stop", "bg_unnoticed_stop", "fg_leader_gone"]:
             plans.append({"kind": "scripted", "name": name, "seed": ctx.rng.randrange(1 << 30)})
     ntr = 100 if ctx.thorough else 30
     for i in range(ntr // 10):
